@@ -119,18 +119,24 @@ class Source:
         return found
 
     def find(self, path):
-        """path: list of segments, e.g. ["impl Schedule", "fn view_leader"]."""
-        lo, hi = 0, len(self.toks)
+        """path: list of segments, e.g. ["impl Schedule", "fn view_leader"].
+        An `impl` segment may match several blocks with the same header; the item must be unique overall."""
+        ranges = [(0, len(self.toks))]
         item = None
         for n, seg in enumerate(path):
-            cands = self._find_in(lo, hi, seg)
-            if len(cands) != 1:
+            cands = []
+            for lo, hi in ranges:
+                cands.extend(self._find_in(lo, hi, seg))
+            last = n + 1 == len(path)
+            if not cands or (len(cands) != 1 and (last or not seg.startswith("impl"))):
                 raise LostAnchor("%s: segment %r of %r matches %d items" % (self.path, seg, path, len(cands)))
             item = cands[0]
-            if n + 1 < len(path):
-                if item["body_open"] is None:
-                    raise LostAnchor("%s: %r has no body" % (self.path, seg))
-                lo, hi = item["body_open"] + 1, item["end"]
+            if not last:
+                ranges = []
+                for c in cands:
+                    if c["body_open"] is None:
+                        raise LostAnchor("%s: %r has no body" % (self.path, seg))
+                    ranges.append((c["body_open"] + 1, c["end"]))
         return Item(self, item)
 
 
